@@ -588,6 +588,29 @@ def run(chk, args):
         rng.shuffle(forced)
         allow_real = [6 if chk.tier == "quick" else 60]
         histories += [gen_history(rng, chk.tier, forced, allow_real) for _ in range(n)]
+        # small exhaustive families: every ordered pair (preset i, then preset j or no option at all) ...
+        def simple(host, n, seed, t, **kw):
+            c = dict(via="func", host="127.0.0.%d" % host, port=None, image=dict(kind="lcg", n=n, seed=seed),
+                     struct=dict(kind="bundled"), overrides=None, kwargs=[], times=[t + 0.5, t + 0.5], tags=["family"])
+            c.update(kw)
+            return c
+        for i in range(1, 6):
+            for j in range(0, 6):
+                second = simple(2, 1028, 11 + j, 1474848100, **(dict(preset_kwargs=j) if j else {}))
+                histories.append(dict(slots=[], calls=[simple(1, 1028, i, 1474848000, preset_kwargs=i), second]))
+        # ... and, in the thorough tier, every image size 0, 4, ..., 4200 and every single-field override of
+        # the bundled struct at its extreme values
+        if chk.tier != "quick":
+            for n in range(0, 4204, 4):
+                histories.append(dict(slots=[], calls=[simple(1, n, n + 1, 1474848000 + n, preset_kwargs=1 + n // 4 % 5)]))
+            sv = parse_struct_text(bundled_struct_text())["sv"]
+            for nm, (perl, _, _, _) in sv["fields"].items():
+                w = KINDS[perl][1]
+                for v in (0, (1 << (8 * w)) - 1, 1 << (8 * w), -1):
+                    opt = dict(overrides=dict(fresh=[[nm, v]])) if nm in BOOT_PARAMS or rng.random() < 0.5 \
+                        else dict(kwargs=[[nm, v]])
+                    histories.append(dict(slots=[], calls=[simple(3, 1024, 5, 1474848000, **opt),
+                                                           simple(4, 1024, 5, 1474848000)]))
         # the history of the repaired defect, always
         histories.append(dict(slots=[], calls=[
             dict(via="func", host="127.0.0.1", port=None, image=dict(kind="bundled"), struct=dict(kind="bundled"),
